@@ -1135,15 +1135,37 @@ class C18:
     @staticmethod
     def inside(inp, o):
         """False for inputs the property does not quantify over (the oracle is silent there as well)"""
+        if C18._empty_reduction(inp):
+            return False              # max / min / ptp of an EMPTY window have no value: NumPy raises ValueError
         if inp['fn'] == 'normalize_time':
             tss = [inp['more'][0][k] for k in o['ks']]
             if all(all(t is None for t in ts) for ts in tss):
                 return False          # no timestamp at all: the depth of the result is undefined
         return True
 
+    @staticmethod
+    def _empty_reduction(inp):
+        """a user-chosen reducer without an identity element (max, min, ptp and their nan-variants) over an empty window:
+        baseline with an empty [bl_start:bl_end] slice of the baseline series, reduce of a depth-0 series"""
+        p = inp.get('params') or {}
+        red = str(p.get('red') or '')
+        if not any(t in red for t in ('max', 'min', 'ptp')):
+            return False
+        try:
+            if inp['fn'] == 'baseline':
+                depth = len(inp['more'][0][0]) if inp.get('more') and inp['more'][0] else inp['depth']
+                return len(range(*slice(p.get('bl_start'), p.get('bl_end')).indices(depth))) == 0
+            if inp['fn'] == 'reduce':
+                return inp['depth'] == 0
+        except Exception:       # noqa: BLE001
+            return False
+        return False
+
     def terms(self, inp, o):
         """-> (oracle term | None, model term | None, 'exact' | 'tol')"""
         fn, p = inp['fn'], inp.get('params', {})
+        if self._empty_reduction(inp):
+            return None, None, 'exact'
         rows = o['in']
         d = len(rows[0]) if rows else inp['depth']
         n = len(rows)
